@@ -2,12 +2,16 @@ package w1proxy
 
 import (
 	"fmt"
+
+	"github.com/XiaoMi/Gaea/backend"
+	"github.com/XiaoMi/Gaea/proxy/server"
 	"strings"
 	"time"
 
 	"github.com/XiaoMi/Gaea/models"
 
 	"verif/harness/mycli"
+	"verif/harness/myproto"
 	"verif/harness/mysim"
 	"verif/harness/simkit"
 )
@@ -25,7 +29,13 @@ func runC23(r *simkit.Run) {
 	nSlices := tp.Range(1, 2)
 	nClients := tp.Range(1, 2)
 	opsPer := tp.Range(5, 14)
-	ns := shardedNamespace("ns1", nSlices, tp.Range(0, 1))
+	// a namespace without shard rules forwards statements it cannot parse (CALL) to the default slice
+	unsharded := tp.Chance(1, 3)
+	mkNS := shardedNamespace
+	if unsharded {
+		mkNS = baseNamespace
+	}
+	ns := mkNS("ns1", nSlices, tp.Range(0, 1))
 	ns.SetForKeepSession = true
 	for _, sl := range ns.Slices {
 		sl.Capacity, sl.MaxCapacity = 2, 4
@@ -42,16 +52,30 @@ func runC23(r *simkit.Run) {
 	// some statements take a little simulated time, so that a reload can land while a command is in flight
 	slowOn := tp.Chance(1, 2)
 	w.Cl.Fault = func(c *mysim.Conn, st *mysim.Stmt) *mysim.FaultAction {
-		if slowOn && !isNoise(st) && (st.Kind == "select" || st.Kind == "update") && tp.Chance(1, 4) {
+		isCall := strings.HasPrefix(strings.ToLower(strings.TrimSpace(st.SQL)), "call ")
+		if slowOn && !isNoise(st) && (st.Kind == "select" || st.Kind == "update" || isCall) && tp.Chance(1, 4-2*b2i(isCall)) {
 			r.Fault("slow-statement-300ms")
 			return &mysim.FaultAction{Delay: 300 * time.Millisecond}
 		}
 		return nil
 	}
-	cfg := fmt.Sprintf("slices=%d clients=%d ops=%d slowStatements=%v", nSlices, nClients, opsPer, slowOn)
+	w.Cl.Exec = func(c *mysim.Conn, st *mysim.Stmt) *mysim.Reply {
+		if !strings.HasPrefix(strings.ToLower(strings.TrimSpace(st.SQL)), "call ") {
+			return nil
+		}
+		col := []myproto.Column{{Name: "v", Type: myproto.TLongLong, Length: 20}}
+		rep := &mysim.Reply{Columns: col, Rows: [][][]byte{{[]byte("1")}, {[]byte("2")}},
+			Next: &mysim.Reply{Columns: col, Rows: [][][]byte{{[]byte("3")}}, Next: &mysim.Reply{}}}
+		if slowOn && tp.Chance(1, 2) {
+			r.Fault("slow-statement-300ms")
+			rep.StallNext = 300 * time.Millisecond
+		}
+		return rep
+	}
+	cfg := fmt.Sprintf("slices=%d clients=%d ops=%d slowStatements=%v shardRules=%v", nSlices, nClients, opsPer, slowOn, !unsharded)
 	r.Logf("config %s", cfg)
-	reloads := 0      // committed reloads so far
-	version := 5000   // stamped into max_sql_execute_time
+	reloads := 0    // committed reloads so far
+	version := 5000 // stamped into max_sql_execute_time
 	finished := 0
 	type pin struct {
 		conn  uint32
@@ -73,7 +97,17 @@ func runC23(r *simkit.Run) {
 		cm := &ClientModel{Idx: i, User: user, DB: "db1", AC: true, Vars: map[string]string{}, UVars: map[string]string{}}
 		h.Clients = append(h.Clients, cm)
 		for j := 0; j < opsPer; j++ {
-			cm.Script = append(cm.Script, genTxnOp(tp, i, j, nSlices))
+			op := genTxnOp(tp, i, j, nSlices)
+			if unsharded && tp.Chance(1, 4) {
+				// a stored procedure with several selects: the reply is a chain of results that the proxy
+				// streams to the client from the pinned connection while it is still reading it
+				m := markerOf(i, j)
+				op = Op{Kind: "query", SQL: fmt.Sprintf("call p_multi(%d)", m), Marker: m, Class: "write", Table: "t_plain", Arg: "call"}
+			}
+			if unsharded && op.Kind == "use" {
+				op.Arg = "db1" // (in db2, whose physical name differs, the proxy parses every statement and refuses CALL)
+			}
+			cm.Script = append(cm.Script, op)
 		}
 		pins := map[string]*pin{} // slice -> pinned backend connection
 		allPins = append(allPins, pins)
@@ -116,6 +150,19 @@ func runC23(r *simkit.Run) {
 				rec := h.run(cm, j, op)
 				r.Sched("op", fmt.Sprintf("%d/%s", i, op.Class))
 				r.Logf("%s [%s%s] %q -> %s", name, op.Class, txTag(rec), op.SQL, errText(rec.Err))
+				if op.Arg == "call" && rec.Err == nil {
+					r.Probe("multi-result-reply-streamed-from-the-pinned-connection")
+					if len(rec.Res) != 3 || len(rec.Res[0].Rows) != 2 || len(rec.Res[1].Rows) != 1 {
+						r.Failf("C23-reply-of-pinned-connection-damaged", "%s: %q answers with two result sets (2 rows, 1 row) and an OK on the backend; the client received %d results without an error", name, op.SQL, len(rec.Res))
+					}
+				}
+				if reloads > epochAtInvoke && !wasTx && cm.AC {
+					// the namespace was reloaded while this command was being served, outside a transaction
+					r.Probe("reload-while-a-command-outside-a-transaction-is-in-flight")
+					if rec.Err != nil && op.Class != "begin" && op.Class != "set-ac0" {
+						r.Failf("C23-client-outside-transaction-got-error-after-reload", "%s was outside a transaction when its namespace was reloaded in the middle of its command %q, and the command failed: %v", name, op.SQL, rec.Err)
+					}
+				}
 				if epochAtInvoke > seenEpoch {
 					// first command after a committed reload of the namespace
 					if wasTx {
@@ -169,7 +216,7 @@ func runC23(r *simkit.Run) {
 				r.Probe("reload-while-a-command-is-in-flight")
 			}
 			version++
-			c := shardedNamespace("ns1", nSlices, len(ns.Slices[0].Slaves))
+			c := mkNS("ns1", nSlices, len(ns.Slices[0].Slaves))
 			c.SetForKeepSession = true
 			c.MaxSqlExecuteTime = version
 			for _, sl := range c.Slices {
@@ -188,6 +235,12 @@ func runC23(r *simkit.Run) {
 			r.Sched("reload", fmt.Sprint(reloads))
 			r.Logf("%d namespace ns1 reloaded (generation %d)", r.Steps, reloads)
 			r.Fault("namespace-reload-committed")
+			if tp.Chance(1, 2) {
+				// the clients stay quiet for more than the 60 s after which the replaced namespace closes its pools:
+				// connections they still hold from it come back while that close is waiting for them
+				r.Advance(61 * time.Second)
+				r.Probe("old-generation-closing-while-connections-are-out")
+			}
 		}
 	}, func() bool { return finished < nClients })
 	if !r.Failed() && finished == nClients {
@@ -203,6 +256,21 @@ func runC23(r *simkit.Run) {
 		if inUse, detail := w.PoolStats(); inUse != 0 && !r.Failed() {
 			r.Failf("C23-connection-not-released-at-disconnect", "all clients have disconnected but %d backend connections are still checked out: %v", inUse, detail)
 		}
+		// the same for the pools of replaced generations of the namespace
+		for _, n := range server.VerifAllNamespaces(w.Manager) {
+			for sn, sl := range server.VerifSlices(n) {
+				for _, dbi := range []*backend.DBInfo{sl.Master, sl.Slave, sl.StatisticSlave} {
+					if dbi == nil {
+						continue
+					}
+					for _, node := range dbi.Nodes {
+						if u := node.ConnPool.InUse(); u != 0 && !r.Failed() {
+							r.Failf("C23-connection-not-released-at-disconnect", "all clients have disconnected but pool %s %s (of a current or replaced generation of the namespace) still counts %d connections as checked out", sn, node.Address, u)
+						}
+					}
+				}
+			}
+		}
 	}
 	r.Nontrivial = len(h.Ops) > 4
 	r.State(simkit.Hash(cfg + fmt.Sprint(reloads)))
@@ -211,3 +279,10 @@ func runC23(r *simkit.Run) {
 }
 
 var _ = strings.Contains
+
+func b2i(b bool) int {
+	if b {
+		return 1
+	}
+	return 0
+}
